@@ -473,14 +473,14 @@ pub fn c11_converse_map_noncontiguous() {
     map_noncontiguous(1);
 }
 
-// @verif prop=C11 tier=thorough fl=f2 role=union-idempotent/adjacency-list t=1800 mem=16
+// @verif prop=C11 tier=exp fl=f2 role=union-idempotent/adjacency-list t=1800 mem=16
 #[cfg_attr(kani, kani::proof)]
 #[cfg_attr(kani, kani::unwind(8))]
 pub fn c11_union_idempotent_adjacency_list_n3_p4() {
     union_idempotent::<AdjacencyList, 3>(4);
 }
 
-// @verif prop=C11 tier=thorough fl=f2 role=complement/adjacency-list t=3600 mem=24
+// @verif prop=C11 tier=exp fl=f2 role=complement/adjacency-list t=3600 mem=24
 #[cfg_attr(kani, kani::proof)]
 #[cfg_attr(kani, kani::unwind(8))]
 pub fn c11_complement_adjacency_list_n4_p6() {
